@@ -224,6 +224,17 @@ class BuiltinMixin(object):
     if isinstance(obj, VRef) and isinstance(obj.cls, ClassInfo):
       r = obj.cls.find_method(nm) is not None or self.has_field(st, obj, nm) or obj.cls.find_class_attr(nm)[1] is not None
       return [(st, VBool(bool(r)))]
+    native = {VNone: type(None), VBool: bool, VInt: int, VFloat: float, VStr: str, VBytes: bytes}
+    if type(obj) in native:
+      return [(st, VBool(hasattr(native[type(obj)], nm)))]
+    if isinstance(obj, VVal) and nm != '__len__':
+      out = []
+      for s, tv in self.resolve(st, obj):
+        if type(tv) in native:
+          out.append((s, VBool(hasattr(native[type(tv)], nm))))
+        else:
+          out.extend(self.b_hasattr(s, [tv, name], kwargs))
+      return out
     if isinstance(obj, VVal) and nm == '__len__':
       out = []
       for s, tv in self.resolve(st, obj):
@@ -702,6 +713,9 @@ class BuiltinMixin(object):
     When a callee's postcondition is *assumed*, its fresh objects live in a region of their own (one per call), so they
     are distinct from everything the caller allocated or obtained from other calls."""
     v = args[0]
+    if isinstance(v, VVal):
+      # a value of unknown type: fresh means "a reference to a fresh object" (as a dict when it may be one)
+      v = VRef('dict', Val.r(v.t))
     region = getattr(self, 'fresh_region', None)
     if region is not None:
       c = z3.And(v.t >= region, v.t < region + 100000)
